@@ -116,7 +116,7 @@ def run(ck: core.Check):
 
     rng = ck.rng
     # ---- tie H (1): the manager on its own, real vs IR executor; model-free judgement alongside
-    rcases = [gen_rename_case(rng) for _ in range(ck.pick(400, 4000))]
+    rcases = [gen_rename_case(rng) for _ in range(ck.pick(600, 4000))]
     try:
         rmodel = ck.driver().ask_many("C12", rcases)
     except Exception as e:  # noqa: BLE001
@@ -185,7 +185,7 @@ def run(ck: core.Check):
     ck.cov["set_order_correspondence_mismatches"] = dm
 
     # ---- oracle: histories, in this process (which has a long history of its own by now)
-    n_hist = ck.pick(500, 5000)
+    n_hist = ck.pick(800, 4000)
     hcases = []
     stats = {"ops": {}, "violating_histories": 0, "refs": 0}
     for _ in range(n_hist):
@@ -213,7 +213,7 @@ def run(ck: core.Check):
             ck.failure(key, what, {"mode": "history", "prog": c["prog"], "hist": small, "ref": c["ref"]})
 
     # ---- oracle: look-alike programs built, freed and built again (results keyed by object identity go stale)
-    n_fam = ck.pick(40, 300)
+    n_fam = ck.pick(40, 200)
     fams = 0
     for _ in range(n_fam):
         fam = lh.gen_reuse_family(rng, rng.randrange(4, 9))
@@ -232,7 +232,7 @@ def run(ck: core.Check):
 
     # ---- oracle: the same reference requests in fresh interpreters, several hash seeds / allocation patterns
     hashseeds = list(range(ck.pick(6, 32)))
-    sub = [c for c in hcases if c["ref"] is not None][: ck.pick(150, 600)]
+    sub = [c for c in hcases if c["ref"] is not None][: ck.pick(150, 400)]
     fresh_cases = [{"prog": c["prog"], "hist": [], "ref": c["ref"], "salt": c["salt"]} for c in sub]
     for c in sub[: ck.pick(25, 100)]:  # a few complete histories too
         fresh_cases.append({"prog": c["prog"], "hist": c["hist"], "ref": c["ref"], "salt": c["salt"] + 7})
